@@ -4,7 +4,7 @@ from __future__ import annotations
 import ast
 from typing import List, Optional, Set
 
-from ..core import Collector, guarded, norm, Unrecognised, AnchorMissing
+from ..core import Collector, guarded, acquire_grammar, norm, Unrecognised, AnchorMissing
 from ..grammar import G, named_nodes, names_inner, names_out, walk, flatten_and, top_shape, action_reads
 from .. import gtools as gt
 from ..pyindex import walk_no_nested, access_path
@@ -31,7 +31,7 @@ TECHNIQUE = 'static analysis (ast): grammar IR sibling comparison and results-na
 
 def run(ctx, col: Collector):
     idx = ctx.idx
-    gm = ctx.grammar
+    gm = acquire_grammar(ctx, col, 'C15-grammar')
     PROP = 'property'
 
     # ---------------------------------------------------------------- C15-select
